@@ -4410,6 +4410,103 @@ fn xml_version(value: &parser::Document) -> Option<String> {
 
 // -----------------------------------------------------------------------------------------------
 
+/// Verification hooks (feature `verif`, off by default): public wrappers around private helpers.
+#[cfg(feature = "verif")]
+pub mod verif_hooks {
+    use super::*;
+
+    pub fn char_from_char10(value: &str) -> error::Result<char> {
+        super::char_from_char10(value)
+    }
+
+    pub fn char_from_char16(value: &str) -> error::Result<char> {
+        super::char_from_char16(value)
+    }
+
+    pub fn delete_char_range(value: &str, offset: usize, count: usize) -> String {
+        super::delete_char_range(value, offset, count)
+    }
+
+    pub fn equal_qname(a: xml_nom::model::QName, b: xml_nom::model::QName) -> bool {
+        super::equal_qname(a, b)
+    }
+
+    pub fn escape(value: &str) -> String {
+        super::escape(value)
+    }
+
+    pub fn insert_char_at<F>(value: &str, offset: usize, new: &str, check: F) -> error::Result<String>
+    where
+        F: Fn(&str) -> error::Result<bool>,
+    {
+        super::insert_char_at(value, offset, new, check)
+    }
+
+    pub fn normalize_ws(value: &str) -> String {
+        super::normalize_ws(value)
+    }
+
+    /// A `DocumentOrder` together with the `ContextInfo` cells that keep its weak entries alive.
+    #[derive(Default)]
+    pub struct OrderProbe {
+        order: DocumentOrder,
+        infos: Vec<Singleton<ContextInfo>>,
+    }
+
+    impl OrderProbe {
+        fn info(&mut self, id: usize) -> Singleton<ContextInfo> {
+            if let Some(v) = self.infos.iter().find(|v| v.borrow().id == id) {
+                v.clone()
+            } else {
+                let v = singleton(ContextInfo::from(id));
+                self.infos.push(v.clone());
+                v
+            }
+        }
+
+        pub fn get(&self, id: usize) -> usize {
+            self.order.get(id)
+        }
+
+        pub fn insert_after(&mut self, id: usize, new_id: usize) -> Option<usize> {
+            let info = self.info(new_id);
+            self.order.insert_after(id, &info)
+        }
+
+        pub fn insert_before(&mut self, id: usize, new_id: usize) -> Option<usize> {
+            let info = self.info(new_id);
+            self.order.insert_before(id, &info)
+        }
+
+        pub fn push(&mut self, new_id: usize) -> (usize, usize) {
+            let info = self.info(new_id);
+            self.order.push(&info)
+        }
+
+        pub fn remove(&mut self, id: usize) -> Option<usize> {
+            self.order.remove(id)
+        }
+
+        pub fn drop_info(&mut self, id: usize) {
+            self.infos.retain(|v| v.borrow().id != id);
+        }
+
+        pub fn ids(&self) -> Vec<Option<usize>> {
+            self.order
+                .order
+                .iter()
+                .map(|v| v.upgrade().map(|u| u.borrow().id))
+                .collect()
+        }
+
+        pub fn version(&self) -> usize {
+            self.order.version
+        }
+    }
+}
+
+// -----------------------------------------------------------------------------------------------
+
 #[cfg(test)]
 mod tests {
     use super::*;
